@@ -190,6 +190,32 @@ class Ctx:
                                  at=st.span, sink_at=atxt(sspan), unconditional=unconditional, **det)
         return allok
 
+    def loop_visits_all(self, rule, F, what, history=None):
+        """Every `for` loop of F runs to the end of its iterator: no `return` is reachable from inside a loop body except through
+        the loop's own exit (the `None` arm of `next`): the body neither returns nor breaks.  (`return` where `continue` was meant silently
+        skips the remaining elements.)"""
+        cfg = self.prog.cfg(F)
+        loops = 0
+        for nb, k, t in self.prog.call_keys(F):
+            if not (k.endswith('::next') or k.endswith('Iterator>::next')) or not t.targets:
+                continue
+            if nb not in cfg.reachable_from(cfg.succ[nb]):
+                continue                                   # not a loop head
+            a = F.blocks.get(t.targets[0])
+            if a is None or a.term.kind != 'switchInt' or not a.term.cases:
+                continue
+            d = dict(a.term.cases)
+            none_b, some_b = d.get(0), d.get(1, d.get('otherwise'))
+            if none_b is None or some_b is None:
+                continue
+            loops += 1
+            # the loop is left only through the `None` arm: from the body, without passing the loop head again, no return is
+            # reachable (a `return` and a `break` inside the body are the same thing when nothing follows the loop)
+            body = cfg.reachable_from([some_b], removed_nodes={nb}) | {some_b}
+            inside = sorted(b for b in body if F.blocks[b].term.kind == 'return')
+            self.ob(rule, F.name, what, not inside, at=t.span, returns_inside_loop=len(inside), failing_history=None if not inside else history)
+        return loops
+
     def only_callers(self, rule, sink, allowed, minimum=1):
         """P1: every function mentioning `sink` is in `allowed`."""
         if not self.prog.has(sink):
